@@ -586,6 +586,64 @@ impl Corp for Renamed {
     }
 }
 
+/// raw-identifier fields next to ordinary ones: the derive macro orders the fields by the hash of the label, which is
+/// the identifier without `r#` (`type` sorts after `name`, `r#type` would sort before it)
+#[derive(CandidType, Deserialize, Clone, Debug, PartialEq)]
+pub struct RawFields {
+    pub r#type: String,
+    pub name: String,
+    pub value: Nat,
+    pub r#fn: u8,
+    pub r#match: Option<i16>,
+    pub id: u64,
+    pub r#loop: bool,
+}
+impl Corp for RawFields {
+    fn rdesc(d: &mut Defs) -> String {
+        named_def::<Self>(d, |d| {
+            format!(
+                "(struct ({} field {}) ({} field {}) ({} field {}) ({} field {}) ({} field {}) ({} field {}) ({} field {}))",
+                nlab("type"),
+                String::rdesc(d),
+                nlab("name"),
+                String::rdesc(d),
+                nlab("value"),
+                Nat::rdesc(d),
+                nlab("fn"),
+                u8::rdesc(d),
+                nlab("match"),
+                Option::<i16>::rdesc(d),
+                nlab("id"),
+                u64::rdesc(d),
+                nlab("loop"),
+                bool::rdesc(d)
+            )
+        })
+    }
+    fn arb(r: &mut Rng, d: u32) -> Self {
+        RawFields {
+            r#type: String::arb(r, d),
+            name: String::arb(r, d),
+            value: Nat::arb(r, d),
+            r#fn: u8::arb(r, d),
+            r#match: Option::<i16>::arb(r, d.max(1)),
+            id: u64::arb(r, d),
+            r#loop: bool::arb(r, d),
+        }
+    }
+    fn idl(&self) -> IDLValue {
+        rec(vec![
+            (named("type"), self.r#type.idl()),
+            (named("name"), self.name.idl()),
+            (named("value"), self.value.idl()),
+            (named("fn"), self.r#fn.idl()),
+            (named("match"), self.r#match.idl()),
+            (named("id"), self.id.idl()),
+            (named("loop"), self.r#loop.idl()),
+        ])
+    }
+}
+
 #[derive(CandidType, Deserialize, Clone, Debug, PartialEq)]
 pub struct Wrap<T>(pub T);
 impl<T: Corp> Corp for Wrap<T> {
@@ -1055,6 +1113,10 @@ pub fn all() -> Vec<Entry> {
     v.push(entry!(ByteBuf));
     v.push(entry!(Vec<ByteBuf>));
     v.push(entry!(Renamed));
+    v.push(entry!(RawFields));
+    v.push(entry!(Vec<RawFields>));
+    v.push(entry!(Option<RawFields>));
+    v.push(entry!(BTreeMap<String, RawFields>));
     v.push(entry!(Vec<Renamed>));
     v.push(entry!(Shape));
     v.push(entry!(Vec<Shape>));
